@@ -44,10 +44,17 @@ type faultFs struct {
 	n    int64
 	at   int64 // 0 = never
 	mode string
+	hook func() // mode "run": called once, right before operation number `at` (another client's complete call)
 }
 
 func (f *faultFs) tick() error {
 	n := atomic.AddInt64(&f.n, 1)
+	if f.mode == "run" && n == f.at && f.hook != nil {
+		h := f.hook
+		f.hook = nil
+		h()
+		return nil
+	}
 	if f.at > 0 && ((f.mode == "stop" && n >= f.at) || (f.mode == "one" && n == f.at)) {
 		return errCacheFault
 	}
@@ -297,7 +304,7 @@ func safely(f func() error) (err error, panicked string) {
 func cacheCrashMain(args []string) {
 	o := hx.ParseOpts(args)
 	rep := hx.NewReport("both cache kinds x MemMapFs / OsFs: (1) Store(v1) then a Store(v2) whose backend stops from operation k on (write at the crash point cut short) or fails at operation k only, for every k (in memory, and on the OS backend in the thorough tier) / 12 sampled k (OS backend, quick), " +
-		"followed by CleanEntry (after the lock went stale) and Fetch by a fresh client; (2) the same without a previous version; (3) 2..4 clients storing v1..v3, fetching and cleaning concurrently; (4) remote paths containing \".part\". " +
+		"followed by CleanEntry (after the lock went stale) and Fetch by a fresh client; (2) the same without a previous version; (3) 2..4 clients storing v1..v3, fetching and cleaning concurrently; (4) remote paths containing \".part\"; (5) immutable cache: another client's complete Store(v3) right before every backend operation of a CleanEntry / Fetch. " +
 		"non-trivial = the fault hits the Store (k ≤ number of operations of the un-faulted Store); distinct = (kind, backend, scenario, fault mode, k).")
 	ctx := context.Background()
 	key := "k1"
@@ -431,6 +438,57 @@ func cacheCrashMain(args []string) {
 				}
 				wgc.Wait()
 			}
+		}
+	}
+	// ---- another client's COMPLETE Store in the middle of this client's CleanEntry / Fetch (immutable cache: no lock) ----
+	for _, victim := range []string{"CleanEntry", "Fetch"} {
+		// number of backend operations of the undisturbed call
+		w0 := newCacheWorld("mem", "remote")
+		c0, _ := w0.client(sharedcache.CacheImmutable, nil)
+		_ = c0.Store(ctx, key, filepath.Join(w0.base, "src", "v1"))
+		_ = c0.Store(ctx, key, filepath.Join(w0.base, "src", "v2"))
+		ffc := &faultFs{}
+		ca, _ := w0.client(sharedcache.CacheImmutable, ffc)
+		if victim == "CleanEntry" {
+			_ = ca.CleanEntry(ctx, key)
+		} else {
+			_ = ca.Fetch(ctx, key, filepath.Join(w0.base, "dest0"))
+		}
+		totalOps := atomic.LoadInt64(&ffc.n)
+		w0.cleanup()
+		for k := int64(1); k <= totalOps; k++ {
+			w := newCacheWorld("mem", "remote")
+			cs, _ := w.client(sharedcache.CacheImmutable, nil)
+			_ = cs.Store(ctx, key, filepath.Join(w.base, "src", "v1"))
+			_ = cs.Store(ctx, key, filepath.Join(w.base, "src", "v2"))
+			cb, _ := w.client(sharedcache.CacheImmutable, nil)
+			var errB error = errors.New("not run")
+			ff := &faultFs{mode: "run", at: k, hook: func() {
+				errB, _ = safely(func() error { return cb.Store(ctx, key, filepath.Join(w.base, "src", "v3")) })
+			}}
+			cav, _ := w.client(sharedcache.CacheImmutable, ff)
+			var errA error
+			if victim == "CleanEntry" {
+				errA, _ = safely(func() error { return cav.CleanEntry(ctx, key) })
+			} else {
+				errA, _ = safely(func() error { return cav.Fetch(ctx, key, filepath.Join(w.base, "destA")) })
+			}
+			caseTxt := fmt.Sprintf("cachecase CacheImmutable mem Store(v3) by another client completes right before operation %d/%d of %s", k, totalOps, victim)
+			rep.Eval(caseTxt, true)
+			rep.Hist("interleaved-store:" + victim)
+			if errB == nil {
+				cd, _ := w.client(sharedcache.CacheImmutable, nil)
+				ferr, _ := safely(func() error { return cd.Fetch(ctx, key, filepath.Join(w.base, "destD")) })
+				got := whichVersion(w.readTree(filepath.Join(w.base, "destD")))
+				if ferr != nil || got != "v3" {
+					rep.Fail(hx.Failure{Kind: "impl-violates-property", Key: "completed-store-lost-to-a-concurrent-" + victim, Case: caseTxt,
+						Expected: "the next Fetch installs v3 (its Store reported success)", Observed: fmt.Sprintf("%s (fetch error %v; %s answered %v)", got, ferr, victim, errA)})
+				}
+			}
+			if bad := w.remoteInvariant(key); bad != "" {
+				rep.Fail(hx.Failure{Kind: "impl-violates-property", Key: "incomplete-package-visible", Case: caseTxt, Observed: bad})
+			}
+			w.cleanup()
 		}
 	}
 	// ---- remote paths containing ".part" ------------------------------------------------------------
